@@ -17,6 +17,8 @@ Inductive value :=
 | VStructV (name : string) (fields : list (string * value))   (* struct or struct variant *)
 | VVariantV (name : string) (args : list value)              (* unit / tuple variant, tuple struct *)
 | VVecV (vs : list value)                             (* Vec, slice, array; sets in iteration order *)
+| VViewV (name : string) (vs : list value)            (* a slice-like value that is not a Vec: slice::Iter, vec::IntoIter, a user
+                                                         type with an as_slice() accessor; prints as name([..]), matches as its slice *)
 | VMapV (kvs : list (value * value)).
 
 (* match ergonomics and method auto-ref look through references ... *)
@@ -36,6 +38,14 @@ Fixpoint value_eqb (a b : value) {struct a} : bool :=
   | VFloat x, VFloat y => match x, y with Some a, Some b => Z.eqb a b | None, None => true | _, _ => false end
   | VRefV x, VRefV y | VBoxV x, VBoxV y => value_eqb x y
   | VTupleV xs, VTupleV ys | VVecV xs, VVecV ys =>
+      (fix go (l1 l2 : list value) : bool :=
+         match l1, l2 with
+         | [], [] => true
+         | x :: r1, y :: r2 => value_eqb x y && go r1 r2
+         | _, _ => false
+         end) xs ys
+  | VViewV n xs, VViewV m ys =>
+      String.eqb n m &&
       (fix go (l1 l2 : list value) : bool :=
          match l1, l2 with
          | [], [] => true
@@ -343,6 +353,7 @@ Fixpoint debug (v : value) : string :=
       | _ => name ++ "(" ++ join_with ", " (map debug args) ++ ")"
       end
   | VVecV vs => "[" ++ join_with ", " (map debug vs) ++ "]"
+  | VViewV name vs => name ++ "([" ++ join_with ", " (map debug vs) ++ "])"
   | VMapV kvs => "{" ++ join_with ", " (map (fun kv => debug (fst kv) ++ ": " ++ debug (snd kv)) kvs) ++ "}"
   end.
 
@@ -378,7 +389,8 @@ Definition method_sem (m : string) (recv : value) (args : list value) : option v
       match auto_deref recv with
       | VVecV vs => if String.eqb m "len" then Some (VInt (Z.of_nat (List.length vs)))
                     else if String.eqb m "is_empty" then Some (VBool (Nat.eqb (List.length vs) 0))
-                    else if String.eqb m "clone" then Some (VVecV vs) else None
+                    else if String.eqb m "clone" then Some (VVecV vs)
+                    else if String.eqb m "iter" then Some (VViewV "Iter" vs) else None
       | VMapV kvs => if String.eqb m "len" then Some (VInt (Z.of_nat (List.length kvs)))
                      else if String.eqb m "is_empty" then Some (VBool (Nat.eqb (List.length kvs) 0)) else None
       | VStr s => if String.eqb m "len" then Some (VInt (Z.of_nat (String.length s)))
@@ -421,5 +433,5 @@ Fixpoint map_get (k : value) (kvs : list (value * value)) : option value :=
   end.
 
 Definition elements_of (v : value) : option (list value) :=
-  match auto_deref v with VVecV vs => Some vs | _ => None end.
+  match auto_deref v with VVecV vs | VViewV _ vs => Some vs | _ => None end.
 
